@@ -236,17 +236,20 @@ Proof. vm_compute. repeat split; reflexivity. Qed.
    position cuts the last block short (SeekE_lemmas.v; the landing packet carries a granule position, as it
    does for every landing except the beginning-of-link one) *)
 Theorem C07_pcm_seek_truthful_to_link_end :
-  forall (tail : list page) s pos s1,
+  forall (tail : list page) (gend : Z) s pos s1,
     v_hs s = 0 -> OPENED <= v_rs s <= INITSET ->
     pcm_seek_page s pos = (0, s1) -> fallback s pos = false -> FileIntactE tail s1 pos ->
-    fst (pcm_seek s pos) = 0 /\ TruthfulE tail (snd (pcm_seek s pos)) pos /\ v_pcm (snd (pcm_seek s pos)) = pos.
+    fst (pcm_seek s pos) = 0 /\ TruthfulE tail (snd (pcm_seek s pos)) pos /\ v_pcm (snd (pcm_seek s pos)) = pos /\
+    (EndE tail gend s1 -> EndE tail gend (snd (pcm_seek s pos))).
 Proof. exact pcm_seek_intact_e. Qed.
 Print Assumptions C07_pcm_seek_truthful_to_link_end.
 
 Theorem C07_pcm_seek_checked_to_link_end :
   forall s pos, seek_hyps_e s pos = true ->
     fst (pcm_seek s pos) = 0 /\ v_pcm (snd (pcm_seek s pos)) = pos /\
-    TruthfulE (auto_tail_e (snd (pcm_seek_page s pos))) (snd (pcm_seek s pos)) pos.
+    TruthfulE (auto_tail_e (snd (pcm_seek_page s pos))) (snd (pcm_seek s pos)) pos /\
+    forall gend, EndE (auto_tail_e (snd (pcm_seek_page s pos))) gend (snd (pcm_seek_page s pos)) ->
+                 EndE (auto_tail_e (snd (pcm_seek_page s pos))) gend (snd (pcm_seek s pos)).
 Proof. exact pcm_seek_checked_e. Qed.
 Print Assumptions C07_pcm_seek_checked_to_link_end.
 
